@@ -29,6 +29,10 @@ type compiler struct {
 
 	// typedefs whose own type is being resolved, to detect circular chains
 	typedefsInProgress map[*Typedef]struct{}
+
+	// identities whose bases are being resolved, to detect circular derivation
+	identitiesInProgress map[*Identity]struct{}
+
 }
 
 func (c *compiler) module(y *Module) error {
@@ -231,10 +235,18 @@ func (c *compiler) extension(e *Extension) error {
 }
 
 func (c *compiler) identity(y *Identity) error {
+	if _, circular := c.identitiesInProgress[y]; circular {
+		return errors.New(SchemaPath(y) + " - identity is derived from itself")
+	}
 	if y.base != nil {
 		// already done
 		return nil
 	}
+	if c.identitiesInProgress == nil {
+		c.identitiesInProgress = make(map[*Identity]struct{})
+	}
+	c.identitiesInProgress[y] = struct{}{}
+	defer delete(c.identitiesInProgress, y)
 	y.base = make([]*Identity, 0, len(y.baseIds))
 
 	// find all the derived identities
